@@ -46,20 +46,21 @@ theorem relinkFns_spec {L0 : Nat} (ev : Bool) : ∀ (l : List Nat) (st st' : VSt
     split at h
     · cases h
     · split at h
-      · split at h
-        · exact relinkFns_spec ev rest st st' h hl hrest
-        · next hh _ =>
+      · exact relinkFns_spec ev rest st st' h hl hrest
+      · next hh _ =>
+        split at h
+        · cases h
+        · next hs hhs =>
           split at h
-          · cases h
-          · next hs hhs =>
-            split at h
+          · split at h
             · cases h
             · next syms1 hp =>
-              have h1 := SUpd.pinChain _ _ _ _ hp hl (fun x hx => hl hh hs x hhs hx)
+              have h0 : SUpd L0 st.syms (Scopes.pin st.syms r) := SUpd.pin (Or.inl (hr r (by simp)))
+              have h1 := SUpd.pinChain _ _ _ _ hp (h0.links hl) (fun x hx => hl hh hs x hhs hx)
               have h2 : SUpd L0 syms1 (setLink syms1 hh (some r)) := SUpd.setLink _ _ (hr r (by simp))
-              obtain ⟨h3, h4, h5⟩ := relinkFns_spec ev rest _ st' h (h2.links (h1.links hl)) hrest
-              exact ⟨(h1.trans h2).trans h3, h4, h5⟩
-      · exact relinkFns_spec ev rest st st' h hl hrest
+              obtain ⟨h3, h4, h5⟩ := relinkFns_spec ev rest _ st' h (h2.links (h1.links (h0.links hl))) hrest
+              exact ⟨((h0.trans h1).trans h2).trans h3, h4, h5⟩
+          · exact relinkFns_spec ev rest st st' h hl hrest
 
 theorem mergeSymbols_spec {L0 : Nat} : ∀ (fuel : Nat) (syms : Syms) (a b : Nat) (syms' : Syms) (r : Nat),
     mergeSymbols fuel syms a b = some (syms', r) → LinksOld L0 syms → b < L0 → SUpd L0 syms syms' ∧ r < L0
